@@ -4149,6 +4149,121 @@ def r_copy(P, R):
 r_copy.NAME = 'R-DOMAIN(copy model)'
 
 
+def collect_model(P, R):
+    """`BDD.collect_garbage` interpreted (with `decref`) on managers that
+    hold garbage - nodes no outside reference reaches - for every choice
+    of which functions are referenced, with and without a list of roots
+    to start from.  C06: exactly the unreferenced nodes go; counts, the
+    unique table and the functions of the referenced nodes are what they
+    must be; the operation memo is emptied; the next free number is not
+    that of a node that stayed."""
+    import itertools
+    f = P.func('dd.bdd.BDD.collect_garbage')
+    stubs = ClassStubs(P, 'dd.bdd.BDD')
+    resolver = interp.ModuleEnv(P, 'dd.bdd', stubs)
+    names = ['a', 'b', 'c']
+    rows = list(itertools.product((False, True), repeat=3))
+    tts = [tuple(bool(a and not b) for a, b, c in rows),
+           tuple(bool(b if a else c) for a, b, c in rows),
+           tuple(bool(a != c) for a, b, c in rows),
+           tuple(bool(b or c) for a, b, c in rows)]
+    prm = [p for p in f.params if p != 'self']
+    problems = dict()
+    n = 0
+    try:
+        for order in (['a', 'b', 'c'], ['b', 'c', 'a']):
+            for k in range(len(tts) + 1):
+                for kept in itertools.combinations(range(len(tts)), k):
+                    base, ext = _build_manager(
+                        order, tts, list(kept), keep_garbage=True)
+                    succ0 = base['self._succ']
+                    live, todo = {1}, [abs(r) for r in ext]
+                    while todo:
+                        x = todo.pop()
+                        if x in live:
+                            continue
+                        live.add(x)
+                        todo += [abs(succ0[x][1]), abs(succ0[x][2])]
+                    dead = sorted(set(succ0) - live)
+                    tops = [u for u in dead if base['self._ref'][u] == 0]
+                    for roots in (None, list(tops), tops[:1]):
+                        n += 1
+                        obj = _object_manager(copy.deepcopy(
+                            {k_: v for k_, v in base.items()
+                             if k_ != 'self'}))
+                        out, _ = interp.run_function(
+                            f.node, {'self': obj, prm[0]: (
+                                list(roots) if roots is not None
+                                else None)}, stubs, resolver)
+                        what = (f'order {order}, nodes {succ0}, '
+                                f'referenced {sorted(ext)}: '
+                                f'collect_garbage({roots})')
+                        if out[0] == 'raise':
+                            problems.setdefault('raises', (
+                                f'{what}: raises {out[1]}'))
+                            continue
+                        left = set(obj.attrs['_succ'])
+                        if not live <= left:
+                            problems.setdefault('freed-live', (
+                                f'{what}: the node(s) '
+                                f'{sorted(live - left)} reachable from a '
+                                'reference are gone'))
+                            continue
+                        if roots is None or len(roots) == len(tops):
+                            if left != live:
+                                problems.setdefault('kept-garbage', (
+                                    f'{what}: the unreferenced node(s) '
+                                    f'{sorted(left - live)} stay'))
+                                continue
+                        elif roots and roots[0] in left:
+                            problems.setdefault('kept-garbage', (
+                                f'{what}: the unreferenced root '
+                                f'{roots[0]} stays'))
+                            continue
+                        env = {f'self.{k_}': v
+                               for k_, v in obj.attrs.items()}
+                        bad = _manager_complaints(env, dict(ext))
+                        if bad:
+                            problems.setdefault('tables', f'{what}: {bad}')
+                            continue
+                        for r_ in ext:
+                            if _tt_obj(obj, r_, names) != _tt_of(
+                                    base, r_, names):
+                                problems.setdefault('function', (
+                                    f'{what}: the reference {r_} does '
+                                    'not denote what it did'))
+                        if obj.attrs['_ite_table']:
+                            problems.setdefault('memo', (
+                                f'{what}: the operation memo still '
+                                f'holds {obj.attrs["_ite_table"]}'))
+                        mf = obj.attrs.get('_min_free')
+                        if mf in obj.attrs['_succ'] or not isinstance(
+                                mf, int) or mf < 2:
+                            problems.setdefault('next-free', (
+                                f'{what}: the next free number is {mf}, '
+                                'a node that stayed'))
+    except (interp.Unknown, KeyError) as e:
+        R.undecided('R-PAIR', f.qualname, 'collection model', str(e))
+        return None
+    for sub, msg in sorted(problems.items()):
+        R.violation('R-PAIR', f'collect-{sub}', f.qualname,
+                    'collect_garbage', msg, unit=f.unit.rel,
+                    line=f.lineno)
+    if not problems:
+        R.holds('R-PAIR', f.qualname,
+                f'collection model ({n} calls): exactly the unreferenced '
+                'nodes go, tables and counts consistent, referenced '
+                'functions unchanged, memo emptied')
+    return n
+
+
+def r_collect(P, R):
+    n = collect_model(P, R)
+    if n is not None:
+        R.floor('R-PAIR calls of the collection model', n, 60)
+r_collect.NAME = 'R-PAIR(collection model)'
+
+
 def dot_model(P, R):
     """`dd.bdd._to_dot(roots, bdd)` interpreted (with `dd._utils.DotGraph`)
     on small managers: the graph it builds must show, for every node
